@@ -520,13 +520,17 @@ impl Node {
     }
 
     pub async fn link(&self, from: &ExternalPid, to: &ExternalPid) -> Result<()> {
-        if let Some(from_handle) = self.registry.get(from).await {
-            from_handle.add_link(to.clone()).await;
+        if let Some(from_handle) = self.registry.get(from).await
+            && !from_handle.add_link(to.clone()).await
+        {
+            self.signal_noproc_exit(to, from).await;
         }
 
         if to.node == self.name {
-            if let Some(to_handle) = self.registry.get(to).await {
-                to_handle.add_link(from.clone()).await;
+            if let Some(to_handle) = self.registry.get(to).await
+                && !to_handle.add_link(from.clone()).await
+            {
+                self.signal_noproc_exit(from, to).await;
             }
             Ok(())
         } else {
@@ -539,6 +543,20 @@ impl Node {
             } else {
                 Err(Error::NodeNotConnected(node_name.to_string()))
             }
+        }
+    }
+
+    /// A link that reaches a local process which is terminating and has already collected its
+    /// links is answered the way Erlang answers a link to a process that no longer runs: the
+    /// other side gets an exit signal with the reason `noproc`, at once.
+    async fn signal_noproc_exit(&self, receiver: &ExternalPid, exited: &ExternalPid) {
+        if let Some(handle) = self.registry.get(receiver).await {
+            let _ = handle
+                .send(Message::Exit {
+                    from: exited.clone(),
+                    reason: OwnedTerm::Atom(Atom::new("noproc")),
+                })
+                .await;
         }
     }
 
@@ -590,8 +608,19 @@ impl Node {
         let reference = self.make_reference();
 
         if to.node == self.name {
-            if let Some(to_handle) = self.registry.get(to).await {
-                to_handle.add_monitor(from.clone(), reference.clone()).await;
+            if let Some(to_handle) = self.registry.get(to).await
+                && !to_handle.add_monitor(from.clone(), reference.clone()).await
+                && let Some(from_handle) = self.registry.get(from).await
+            {
+                // `to` is terminating and has already collected its monitors: as for a monitor
+                // on a process that no longer runs, the notice (reason `noproc`) is sent at once
+                let _ = from_handle
+                    .send(Message::MonitorExit {
+                        monitored: to.clone(),
+                        reference: reference.clone(),
+                        reason: OwnedTerm::Atom(Atom::new("noproc")),
+                    })
+                    .await;
             }
             Ok(reference)
         } else {
